@@ -241,17 +241,17 @@ pub fn strategy(max_partial: usize) -> impl Strategy<Value = Case> {
 }
 
 pub fn run(ctx: &mut Ctx) {
-    ctx.rule = "target ranges from C06's row-pattern generator (and every pattern of every row with <= 7 cells, thorough: every row); for each target 5-7 construction histories are replayed: sorted insertion, permuted insertion with swapped card order, wrong weights overwritten later plus duplicates, reverse insertion with many repeated inserts, parse of espada's own text, parse of the model's non-canonical text of the same contents (runs split into single rank pairs, rank pairs split into combos in either card order, tokens shuffled, a superseded token first), collection from bare pairs when all weights are 1. Oracle: all histories give == ranges with byte-identical text; the text, read by the model's own tokenizer, has its rank-pair tokens in one-to-one correspondence, in row order (pockets aces down; per high card suited then offsuit), with the model's maximal runs (same cells, same weight bits), followed by single-combo tokens whose set equals the model's leftovers. Non-trivial = >= 3 histories and >= 1 run of length >= 2; distinct by text.".into();
+    ctx.rule = "target ranges from C06's row-pattern generator (and every pattern of every row with <= 7 cells, thorough: <= 10 cells; C06 sweeps every row for the round trip); for each target 5-7 construction histories are replayed: sorted insertion, permuted insertion with swapped card order, wrong weights overwritten later plus duplicates, reverse insertion with many repeated inserts, parse of espada's own text, parse of the model's non-canonical text of the same contents (runs split into single rank pairs, rank pairs split into combos in either card order, tokens shuffled, a superseded token first), collection from bare pairs when all weights are 1. Oracle: all histories give == ranges with byte-identical text; the text, read by the model's own tokenizer, has its rank-pair tokens in one-to-one correspondence, in row order (pockets aces down; per high card suited then offsuit), with the model's maximal runs (same cells, same weight bits), followed by single-combo tokens whose set equals the model's leftovers. Non-trivial = >= 3 histories and >= 1 run of length >= 2; distinct by text.".into();
     ctx.assumptions = vec![
         "duplicated leftover tokens for partial pocket pairs are pinned by a repository test and not forbidden by the statement: only the set and placement of leftover tokens is checked".into(),
         "a history whose parse does not reproduce the target contents is skipped here (that is C05's subject)".into(),
     ];
-    let cases = ctx.tier.pick(8_000, 300_000);
+    let cases = ctx.tier.pick(8_000, 100_000);
     ctx.run_random_brief(StreamCfg::new("construction_histories", CLASSES, cases).shrink(300), || strategy(6), check, |c| json!({"combos": c.range.combos.len(), "text": to_espada(&c.range.map()).to_string().chars().take(160).collect::<String>()}));
     for (c, d) in [("parse_of_noncanonical_text", 2), ("collect_from_bare_pairs", 30), ("run_of_two_or_more", 3), ("has_leftovers", 4)] {
         ctx.require_class("construction_histories", c, cases / d);
     }
-    let sweep = row_sweep(ctx.tier.pick(7, 13));
+    let sweep = row_sweep(ctx.tier.pick(7, 10));
     let n = sweep.len() as u64;
     ctx.run_enum_brief(
         StreamCfg::new("all_row_patterns", CLASSES, n),
